@@ -308,6 +308,15 @@ func TestGenericAuthenticatorCaching(t *testing.T) {
 
 		secs, hasExp := offsetSeconds(off)
 
+		// (a session which ended at, just before or just after the start of the epoch: long ago)
+		longAgo := rapid.IntRange(0, 7).Draw(t, "endedAroundTheEpoch") == 3
+		if longAgo {
+			abs := rapid.SampledFrom([]int64{0, -1, 1, -86400}).Draw(t, "notAfter")
+			secs, hasExp, off = abs-now.Unix(), true, fmt.Sprintf("=%d", abs)
+
+			vkit.S.Label("generic.session_ended_around_the_epoch")
+		}
+
 		remote.Set(func(vkit.Call) vkit.Reply {
 			body := map[string]any{"id": "u1", "active": true}
 			if hasExp {
